@@ -1,7 +1,8 @@
 """C16: value conversion helpers are range-exact and mutually inverse.
 
-Tie: Gen/Conv.v is regenerated from the helpers' source on every run (translator) and the
-theorems of Props/C16.v are re-checked against it; on top, every helper is run against the Coq
+Tie: Gen/Conv.v and Gen/ConvFmt.v (formatted_str_to_val / val_to_formatted_str, whole, statement by
+statement) are regenerated from the helpers' source on every run (translator) and the theorems of
+Props/C16.v are re-checked against them; on top, every helper is run against the Coq
 model (vm_compute) on the same inputs (behavioural correspondence -> model_mismatch).
 Search: every helper is run against the mathematical definition written here in plain Python
 (representable ranges, v mod 2^w, minimal width, inverse relations) -> spec_violation."""
@@ -19,7 +20,9 @@ RULE = ('inputs of the conversion helpers: (value, bitwidth|None, signed) exhaus
         'without underscores, bitwidth parameter) exhaustively for width <= 6 plus boundary values to width 130 '
         'and a list of malformed strings; Const on the same triples; val_to_signed_integer / twos_comp_repr / '
         'rev_twos_comp_repr on all (value, width) with width <= 10 plus boundaries; all five format types '
-        '(s,u,x,b,e + unknown) x widths 1..8 exhaustively over [0,2^w) plus boundaries, and back; the enum format over '
+        '(s,u,x,b,e + unknown) x widths 1..8 exhaustively over [0,2^w) plus boundaries, and back, plus malformed format '
+        'strings (negative / missing / non-numeric width, empty), all against the functions REGENERATED from the source '
+        '(Gen/ConvFmt.v); the enum format over '
         'enum_sets of five Enum/IntEnum classes whose names are prefixes/suffixes of each other, one nested, with shared '
         'member names carrying different values, in every relative order (rotations+reversals, sub-sets; thorough: all '
         'permutations) x every requested name (also absent / dotted / partial names) x every member name and value: '
@@ -35,16 +38,21 @@ RULE = ('inputs of the conversion helpers: (value, bitwidth|None, signed) exhaus
         'accepted value fed to a simulated match_bitpattern circuit.  A case = one helper call; distinct by '
         '(helper, arguments); all cases are non-trivial calls (error paths are counted separately).')
 IMPORTS = 'From PyRTL Require Import Base.PyZ Conv.ConvBase Gen.Conv Conv.Str Conv.Harness.'
-COQ_TARGETS = ['theories/Conv/Harness.vo']
+COQ_TARGETS = ['theories/Conv/Harness.vo', 'theories/Conv/HarnessFmt.vo']
+IMPORTS_FMT = IMPORTS + ' From PyRTL Require Import Gen.ConvFmt Conv.HarnessFmt.'
 TRUSTED = [
     'py/checks/C16.py: the mathematical definitions used by the search (representable, v mod 2^w, minimal '
-    'width, signed interpretation, positional digits, bit-pattern packing) written in plain Python',
-    'coq/theories/Conv/Str.v: hand models of Python int()/str()/bin()/hex(), of the control skeleton of the '
-    'string part of _convert_verilog_str (its table, character literals and default radix are generated; the '
-    'skeleton is frozen by AST identity in genfrag_C16 and proved to parse every printed constant), of the '
-    'Const call sequence validate/infer/post-checks/validate (proved equal to validate-then-infer), of '
-    'formatted_str_to_val/val_to_formatted_str, bitpattern_to_val and a value-level match_bitpattern (proved '
-    'mutually inverse; match_bitpattern itself is tied to the real circuit by simulation only)',
+    'width, signed interpretation, positional digits, bit-pattern packing, enum lookup by exact name) in plain Python',
+    'coq/theories/Conv/Str.v: models of the Python built-ins the helpers call -- int(s, base), str(), bin()/hex() '
+    'slices, s[k], s.split(c), getattr(Enum, name).value, Enum(value).name, the ValueError of a negative shift '
+    'count -- proved mutually inverse where that is meaningful (int(str(n)) = n, radix 2..36) and compared with '
+    'the real built-ins on every run',
+    'coq/theories/Conv/Str.v: hand models of the control skeleton of the string part of _convert_verilog_str (its '
+    'table, character literals and default radix are generated; the skeleton is frozen by AST identity in '
+    'genfrag_C16 and proved to parse every printed constant), of the Const call sequence validate/infer/post-checks/'
+    'validate (proved equal to validate-then-infer; the sequence is checked to be present in the source), of '
+    'bitpattern_to_val and a value-level match_bitpattern (proved mutually inverse; match_bitpattern itself is tied '
+    'to the real circuit by simulation only)',
 ]
 ASSUMPTIONS = [
     'arguments are Python ints/bools/strs (isinstance(x, WireVector) is false in the model)',
@@ -57,7 +65,10 @@ ASSUMPTIONS = [
     'outside the generated inputs',
     'bit patterns given to bitpattern_to_val contain no blanks/underscores (it treats them as field names, '
     'match_bitpattern strips them); fields are passed positionally',
-    'enum formats: the enum has distinct member values (no aliases)',
+    'enum formats: the enum has distinct member values (no aliases) for the text round trip; member and class '
+    'names distinct (always true in Python) are explicit premises of the enum theorems',
+    'format strings: the width field is read by int() as modelled (ASCII digits, optional sign); a negative width '
+    'is rejected by both directions (ValueError of 1 << bitwidth) in the model as in Python',
 ]
 
 
@@ -139,6 +150,22 @@ def call(f, *a, **k):
 
 def tup(r):
     return None if r is None else (int(r[0]), int(r[1]))
+
+
+def eval_fmt(ctx, F, template, tag, **kw):
+    """evaluate with the formatted-string functions regenerated from the source (Gen/ConvFmt.v); if that
+    file does not build (untranslatable source) report the broken tie and fall back to the hand-written
+    definitions of Conv/Str.v so that the search still runs.  template: exprs with {to_str}/{to_val}/{val}"""
+    src = [t.format(to_str='hs_to_str', to_val='hs_to_val', val='hs_val') for t in template]
+    try:
+        return ctx.coq_eval(src, IMPORTS_FMT, tag=tag, **kw)
+    except Exception as e:
+        F.model_fail('fmt:generated-model-unavailable', (0, 0, 0),
+                     'Gen/ConvFmt.v (formatted-string functions regenerated from the source) cannot be evaluated',
+                     {'error': str(e)[-600:]})
+        hand = [t.format(to_str='h_to_str', to_val='h_to_val',
+                         val='(fun d f e => res_opt (formatted_str_to_val d f e))') for t in template]
+        return ctx.coq_eval(hand, IMPORTS, tag=tag + 'hand', **kw)
 
 
 class Fails(object):
@@ -538,12 +565,14 @@ def check_formats(ctx, F):
         vs = list(range(0, 1 << w))
         for i in range(0, len(vs), 256):
             groups.append((w, vs[i:i + 256] + ([-1, -5, 1 << w, (1 << w) + 3] if i == 0 else []), fs))
+    # malformed format strings: negative / missing / non-numeric width, empty format
+    groups.append((1, [0, 1, 5], ['s-1', 'u-1', 'x-2', 'b-1', 'e-1/Ctl', 's', 'u/', 'x1x', '', 'e/Ctl', 'e3', 'e3/', 'u+2', 's03']))
     kmax = 130 if ctx.tier == 'quick' else 260
     for k in range(wmax + 1, kmax + 1, 1 if ctx.tier == 'thorough' else 3):
         fs = ['%s%d' % (t, k) for t in 'suxb']
         groups.append((k, sorted({0, 1, (1 << (k - 1)) - 1, 1 << (k - 1), (1 << (k - 1)) + 1, (1 << k) - 2, (1 << k) - 1}), fs))
-    exprs = ['h_to_str %s %s (%s)' % (zl(vs), sll(fs), ENUM_COQ) for _, vs, fs in groups]
-    res = ctx.coq_eval(exprs, IMPORTS, tag='c16fmt', shard=10, jobs=12)
+    exprs = ['{to_str} %s %s (%s)' % (zl(vs), sll(fs), ENUM_COQ) for _, vs, fs in groups]
+    res = eval_fmt(ctx, F, exprs, 'c16fmt', shard=10, jobs=12)
     back_cases = []      # (data, format, v or None)
     for (w, vs, fs), m in zip(groups, res):
         for vi, v in enumerate(vs):
@@ -552,13 +581,13 @@ def check_formats(ctx, F):
                 model = unstr(m[vi][fi])
                 ctx.case(('to_str', v, f), sample={'helper': 'val_to_formatted_str', 'args': [v, f], 'result': impl}
                          if (v, f) in ((5, 's3'), (12, 'e4/Ctl')) else None)
-                ctx.count('fmt:type', f[0])
+                ctx.count('fmt:type', f[:1] or '(empty)')
                 ctx.count('to_str:outcome', cls)
                 rep = {'call': 'val_to_formatted_str(%d, %r, [Ctl])' % (v, f), 'got': impl}
                 size = (w, abs(v), 0)
                 if impl != model:
                     F.model_fail('to_str:model', size, 'val_to_formatted_str(%d, %r) = %r, model %r' % (v, f, impl, model), rep)
-                if 0 <= v < (1 << w) and f[0] in 'suxbe' and not f.endswith('Nope'):
+                if 0 <= v < (1 << w) and f[:1] in list('suxbe') and not f.endswith('Nope') and f[1:].split('/')[0].isdigit():
                     want = spec_to_str(v, f[0], w)
                     if impl != want:
                         F.spec_fail('val_to_formatted_str:text:%s' % f[0], size,
@@ -578,14 +607,17 @@ def check_formats(ctx, F):
             extra.append((d, 'e%d/Ctl' % w, None, w))
             extra.append((d, 'e%d/Nope' % w, None, w))
         extra.append(('1', 'q%d' % w, None, w))
+    for f in ['s-1', 'u-1', 'x-2', 'b-1', 'e-1/Ctl', 's', 'u/', 'x1x', '', 'e/Ctl', 'e3', 'e3/', 'u+2', 's03']:
+        for d in ['1', 'ADD', '-1']:
+            extra.append((d, f, None, 1))
     back_cases += extra
     exprs, chunks = [], []
     for i in range(0, len(back_cases), 300):
         ch = back_cases[i:i + 300]
         chunks.append(ch)
-        exprs.append('[' + '; '.join('res_opt (formatted_str_to_val %s %s (%s))' % (sl(d), sl(f), ENUM_COQ)
-                                     for d, f, _, _ in ch) + ']')
-    res = ctx.coq_eval(exprs, IMPORTS, tag='c16fmtback', shard=4, jobs=12)
+        exprs.append('let e := %s in [' % ENUM_COQ + '; '.join('{val} %s %s e' % (sl(d), sl(f))
+                                                               for d, f, _, _ in ch) + ']')
+    res = eval_fmt(ctx, F, exprs, 'c16fmtback', shard=4, jobs=12)
     for ch, m in zip(chunks, res):
         for (d, f, v, w), mv in zip(ch, m):
             impl, cls = call(formatted_str_to_val, d, f, [Ctl])
@@ -686,9 +718,9 @@ def check_enum_sets(ctx, F):
     ds = sorted({m.name for e in ENUMS for m in e} | {'zz', 'Add'})
     lets = ' '.join('let e%d := %s in' % (i, enum_coq(e)) for i, e in enumerate(ENUMS))
     sets = '[' + '; '.join('[' + '; '.join('e%d' % i for i in o) + ']' for o in orders) + ']'
-    expr = '%s map (fun es => (h_to_str %s %s es, h_to_val %s %s es)) %s' % (
+    expr = '%s map (fun es => ({to_str} %s %s es, {to_val} %s %s es)) %s' % (
         lets, zl(vals), sll(fs), sll(ds), sll(fs), sets)
-    (res,) = ctx.coq_eval([expr], IMPORTS, tag='c16enum')
+    (res,) = eval_fmt(ctx, F, [expr], 'c16enum')
     for o, (m_str, m_val) in zip(orders, res):
         es = [ENUMS[i] for i in o]
         esn = [e.__qualname__ for e in es]
